@@ -17,6 +17,16 @@ CLAIMED = {
         'Lean 4 proof over an exact model + differential correspondence with the real builders'),
 }
 
+CLAIMED['C01'] = (
+    'Lean theorems: the model of CalculateLCOELCOHLCOC (one product per end-use, three economic models) equals the documented closed forms '
+    'for every lifetime, every yearly series and all rational costs/rates (FCR, standard discounted with undiscounted first year, BICYCLE '
+    'reduced with the annuity identity), with product selection and the cogeneration split; the model is tied to the code on every run by '
+    'whole runs through the observer hook (run\'s own CCap, Coam, other annual costs and energy series -> exact evaluation -> compared '
+    'with LCOE/LCOH/LCOC and the report lines).',
+    'kernel + propext/Classical.choice/Quot.sound; documented formulas as written in Properties/C01.lean; SUTRA/AGS economics not modelled; '
+    'float rounding and the sampled correspondence trusted (DESIGN §5)',
+    'Lean 4 proof over an exact rational model + whole-run snapshot correspondence')
+
 PENDING_REASON = 'check not built yet in this commit (work in progress; see DESIGN.md §9 for the order)'
 
 
